@@ -15,7 +15,7 @@ import re
 from .cfg import F
 
 PASS_THROUGH = re.compile(
-    r'Try>::branch$|From<.*>>::from$|Into<.*>>::into$|::clone$|Clone>::clone$|::as_ref$|::as_mut$|::as_deref$|'
+    r'Try>::branch$|From<.*>>::from$|From<[^>]*>( for [^>]+)?>::from$|Into<.*>>::into$|Into<[^>]*>( for [^>]+)?>::into$|::clone$|Clone>::clone$|::as_ref$|::as_mut$|::as_deref$|'
     r'Deref>::deref$|DerefMut>::deref_mut$|::as_str$|::as_slice$|::as_path$|::to_owned$|::to_string$|::to_path_buf$|'
     r'::borrow$|::borrow_mut$|Option(?:::)?<.*>::(unwrap|expect|unwrap_or|unwrap_or_default|unwrap_or_else|ok_or|ok_or_else|map_err|copied|cloned|take)$|'
     r'Result(?:::)?<.*>::(unwrap|expect|unwrap_or|unwrap_or_default|unwrap_or_else|ok|map_err)$|Option::<T>::(unwrap|expect|ok_or|ok_or_else|copied|cloned|take|unwrap_or|unwrap_or_default|unwrap_or_else)$|'
